@@ -768,6 +768,27 @@ func main() {
 		f.Close()
 	}
 
+	// 1b. directed history: two segments with different ids whose "full ids" (hash over hops and
+	// peer entries, concatenated without separators) coincide
+	if *onlyKind == "" || *onlyKind == "p" {
+		h := func(ia, in, eg int) segpool.Hop { return segpool.Hop{IA: ia, In: in, Eg: eg} }
+		pool := segpool.NewPool([]segpool.Desc{
+			{TS: 0, SV: 3, TTL: 2, Hops: []segpool.Hop{h(11, 0, 1), h(13, 2, 0)}, Peers: [][2]int{{1, 5}}, PeerIA: 12},
+			{TS: 0, SV: 3, TTL: 2, Hops: []segpool.Hop{h(11, 0, 1), h(12, 5, 1), h(13, 2, 0)}, Peers: [][2]int{}},
+		})
+		r := &runner{w: w, kind: "p", pool: pool}
+		ntr++
+		r.open(ntr, "directed")
+		for _, s := range []step{
+			{"op": "pins", "p": 1, "type": 2, "groups": []int{0}},
+			{"op": "pins", "p": 2, "type": 2, "groups": []int{0}},
+			{"op": "pget", "all": 1},
+		} {
+			r.exec(s)
+		}
+		r.reallyClose()
+	}
+
 	// 2. seeded random histories on the built-in pools
 	for ki, kind := range []string{"p", "b"} {
 		if *nrand == 0 {
